@@ -354,6 +354,312 @@ pub fn gen_hostile_bam_header(rng: &mut Rng, w: &mut CaseWriter) {
     w.push("rd", vec![fmt.to_string(), hex(&file), rng.below(6).to_string(), rng.next().to_string(), rng.range(1, 8).to_string()]);
 }
 
+// ---------------------------------------------------------------------------------------------
+// hostile / inconsistent BCF headers and records through `rd bcf` (same oracle: header, records,
+// end / error kind of bcf::io::Reader and bcf::r#async::io::Reader must be equal).  Assembled by hand
+// so that what a writer keeps consistent varies independently: the IDX= values of the text (string
+// map) against the positions of the lines (explicit, clashing, out of order, partly given), contig
+// lines against the records' chrom ids (negative, out of range), FILTER / INFO keys of the records
+// against the string map, l_text against the text (no NUL, NUL padding, short / long by a few bytes,
+// zero), text without fileformat / without the #CHROM line / with a line that does not parse, magic
+// and version bytes.  BGZF layer intact.
+
+fn bcf_record(chrom: i32, filter: Option<u8>, info_key: Option<u8>) -> Vec<u8> {
+    let mut s = Vec::new();
+    s.extend(chrom.to_le_bytes());
+    s.extend(7i32.to_le_bytes()); // pos
+    s.extend(1i32.to_le_bytes()); // rlen
+    s.extend(0x7f80_0001u32.to_le_bytes()); // qual: missing
+    let n_info: u32 = if info_key.is_some() { 1 } else { 0 };
+    s.extend(((1u32 << 16) | n_info).to_le_bytes()); // n_allele << 16 | n_info
+    s.extend(0u32.to_le_bytes()); // n_fmt << 24 | n_sample
+    s.push(0x07); // id: empty string
+    s.extend([0x17, b'A']); // ref
+    match filter {
+        None => s.push(0x00),
+        Some(i) => s.extend([0x11, i]),
+    }
+    if let Some(k) = info_key {
+        s.extend([0x11, k, 0x11, 5]); // key (int8), value int8 5
+    }
+    let mut r = (s.len() as u32).to_le_bytes().to_vec();
+    r.extend(0u32.to_le_bytes());
+    r.extend(s);
+    r
+}
+
+pub fn gen_hostile_bcf_header(rng: &mut Rng, w: &mut CaseWriter) {
+    let n_ctg = *rng.pick(&[0usize, 1, 1, 2, 3]);
+    let mut text = Vec::new();
+    if !rng.chance(1, 12) {
+        text.extend(if rng.chance(1, 10) { &b"##fileformat=VCFv4.2\n"[..] } else { &b"##fileformat=VCFv4.3\n"[..] });
+    }
+    // string map entries: PASS first (or not), then INFO / FILTER lines whose IDX is given or not
+    let idx_mode = rng.below(6); // 0,1,2: none   3: all consistent   4: clashing / out of order   5: partly
+    let mut k = 0usize;
+    let idx = |rng: &mut Rng, k: usize| -> String {
+        match idx_mode {
+            3 => format!(",IDX={k}"),
+            4 => format!(",IDX={}", rng.pick(&[0usize, 1, 1, 2, 5, 9])),
+            5 => if rng.chance(1, 2) { format!(",IDX={k}") } else { String::new() },
+            _ => String::new(),
+        }
+    };
+    if !rng.chance(1, 6) {
+        let i = idx(rng, k);
+        text.extend(format!("##FILTER=<ID=PASS,Description=\"All filters passed\"{i}>\n").as_bytes());
+        k += 1;
+    }
+    for name in ["DP", "q10", "AF"] {
+        if rng.chance(2, 3) {
+            let i = idx(rng, k);
+            if name == "q10" {
+                text.extend(format!("##FILTER=<ID=q10,Description=\"q\"{i}>\n").as_bytes());
+            } else {
+                let ty = if name == "DP" { "Integer" } else { "Float" };
+                let num = if name == "DP" { "1" } else { "A" };
+                text.extend(format!("##INFO=<ID={name},Number={num},Type={ty},Description=\"d\"{i}>\n").as_bytes());
+            }
+            k += 1;
+        }
+    }
+    for c in 0..n_ctg {
+        let i = match idx_mode {
+            3 => format!(",IDX={c}"),
+            4 => format!(",IDX={}", rng.pick(&[0usize, 0, 1, 3, 8])),
+            _ => String::new(),
+        };
+        text.extend(format!("##contig=<ID=s{c},length={}{i}>\n", rng.range(10, 500)).as_bytes());
+    }
+    match rng.below(14) {
+        0 => text.extend(b"##INFO=<ID=XX,Number=1>\n"), // does not parse (no Type / Description)
+        1 => text.extend(b"##contig=<ID=s0,length=5>\n"), // duplicate (when n_ctg >= 1)
+        2 => text.extend(b"#garbage\n"),
+        3 => text.extend(b"##k=v\n"),
+        _ => {}
+    }
+    match rng.below(12) {
+        0 => {} // no #CHROM line
+        1 => text.extend(b"#CHROM\tPOS\tID\tREF\tALT\tQUAL\tFILTER\tINFO"), // no final LF
+        2 => text.extend(b"#CHROM\tPOS\tID\tREF\tALT\tQUAL\tFILTER\tINFO\tFORMAT\tx\n"),
+        3 => text.extend(b"#CHROM\tPOS\tID\n"),
+        _ => text.extend(b"#CHROM\tPOS\tID\tREF\tALT\tQUAL\tFILTER\tINFO\n"),
+    }
+    // NUL terminator / padding, l_text chosen independently
+    let pad = match rng.below(8) {
+        0 => 0usize,
+        1 => rng.range(2, 5) as usize,
+        _ => 1,
+    };
+    text.extend(std::iter::repeat(0u8).take(pad));
+    let mut l_text = text.len() as i64;
+    if rng.chance(1, 8) {
+        l_text += *rng.pick(&[-4i64, -2, -1, 1, 2, 6]);
+        l_text = l_text.max(0);
+    }
+    if rng.chance(1, 40) {
+        l_text = 0;
+    }
+    let mut f = Vec::new();
+    f.extend(match rng.below(40) {
+        0 => *b"BCF\x02\x01",
+        1 => *b"BCF\x03\x02",
+        2 => *b"BAM\x01\x00",
+        _ => *b"BCF\x02\x02",
+    });
+    f.extend((l_text as u32).to_le_bytes());
+    f.extend(&text);
+    for _ in 0..rng.below(3) {
+        let chrom = *rng.pick(&[0i32, 0, 0, 1, 2, 5, -1, i32::MAX]);
+        let filter = if rng.chance(1, 2) { Some(*rng.pick(&[0u8, 0, 1, 2, 3, 9])) } else { None };
+        let info = if rng.chance(1, 2) { Some(*rng.pick(&[0u8, 1, 1, 2, 3, 9])) } else { None };
+        f.extend(bcf_record(chrom, filter, info));
+    }
+    let breaks = if rng.chance(1, 3) { vec![rng.below(f.len() as u64 + 1) as usize] } else { vec![] };
+    let file = crate::bgzip(&f, &breaks, rng.chance(3, 4), 6);
+    w.push("rd", vec!["bcf".to_string(), hex(&file), rng.below(6).to_string(), rng.next().to_string(), rng.range(1, 8).to_string()]);
+}
+
+// ---------------------------------------------------------------------------------------------
+// hostile CRAM file definitions and header containers through `rd cram` (cram::io::Reader against
+// cram::r#async::io::Reader, read_header = file definition + header container, then records(&h)).
+// The file definition (magic, version, file id) and the header container (container header fields,
+// its CRC32, the block header: method / content type / content id / sizes, the block CRC32, l_text,
+// the text, a second block, padding up to the container length) are written field by field, each
+// chosen independently; what follows is nothing, the EOF container, or the data containers + EOF
+// container of a file written by the real writer (whose header may or may not be the text used here).
+
+fn itf8(n: i32) -> Vec<u8> {
+    let n = n as u32;
+    if n >> 7 == 0 {
+        vec![n as u8]
+    } else if n >> 14 == 0 {
+        vec![0x80 | (n >> 8) as u8, n as u8]
+    } else if n >> 21 == 0 {
+        vec![0xc0 | (n >> 16) as u8, (n >> 8) as u8, n as u8]
+    } else if n >> 28 == 0 {
+        vec![0xe0 | (n >> 24) as u8, (n >> 16) as u8, (n >> 8) as u8, n as u8]
+    } else {
+        vec![0xf0 | (n >> 28) as u8, (n >> 20) as u8, (n >> 12) as u8, (n >> 4) as u8, (n & 0x0f) as u8]
+    }
+}
+
+fn crc32(b: &[u8]) -> u32 {
+    let mut c = flate2::Crc::new();
+    c.update(b);
+    c.sum()
+}
+
+/// offset of the first byte after the header container of a CRAM 3.x file, if it parses
+fn cram_after_header_container(f: &[u8]) -> Option<usize> {
+    let (at, len) = crate::c16_fmt::cram_header_container_body(f)?;
+    if at + len <= f.len() { Some(at + len) } else { None }
+}
+
+const CRAM_EOF: [u8; 38] = [
+    0x0f, 0x00, 0x00, 0x00, 0xff, 0xff, 0xff, 0xff, 0x0f, 0xe0, 0x45, 0x4f, 0x46, 0x00, 0x00, 0x00, 0x00, 0x01, 0x00, 0x05, 0xbd, 0xd9, 0x4f, 0x00, 0x01, 0x00, 0x06, 0x06, 0x01, 0x00,
+    0x01, 0x00, 0x01, 0x00, 0xee, 0x63, 0x01, 0x4b,
+];
+
+pub fn gen_hostile_cram_header(rng: &mut Rng, w: &mut CaseWriter) {
+    // a real file: its tail (data containers + EOF) and its header text
+    let real = crate::c16_fmt::make_file(rng, "cram");
+    let real_text: Vec<u8> = {
+        let mut r = noodles_cram::io::Reader::new(&real[..]);
+        let h = r.read_header().unwrap();
+        let mut sw = noodles_sam::io::Writer::new(Vec::new());
+        sw.write_header(&h).unwrap();
+        sw.into_inner()
+    };
+    let mut text: Vec<u8> = match rng.below(8) {
+        0 => b"@HD\tVN:1.6\n".to_vec(),
+        1 => b"@HD\tVN:1.6\n@SQ\tSN:zz\tLN:9\n".to_vec(),
+        2 => Vec::new(),
+        3 => b"@SQ\tSN:s0\n".to_vec(), // does not parse
+        _ => real_text.clone(),
+    };
+    if rng.chance(1, 10) {
+        text.pop(); // no final LF
+    }
+    if rng.chance(1, 10) {
+        text.extend([0u8; 3]); // NUL padding inside l_text
+    }
+    let mut l_text = text.len() as i64;
+    if rng.chance(1, 8) {
+        l_text += *rng.pick(&[-5i64, -1, 1, 4, 100]);
+    }
+    if rng.chance(1, 30) {
+        l_text = -1;
+    }
+    let mut data = (l_text as i32).to_le_bytes().to_vec();
+    data.extend(&text);
+    if rng.chance(1, 8) {
+        data.extend(std::iter::repeat(0u8).take(rng.range(1, 9) as usize)); // slack inside the block
+    }
+    // the block
+    let block = |rng: &mut Rng, data: &[u8], first: bool| -> Vec<u8> {
+        let mut b = Vec::new();
+        b.push(if rng.chance(1, 10) { *rng.pick(&[1u8, 2, 4, 9]) } else { 0 }); // method: raw, or a lie
+        b.push(if first && !rng.chance(1, 8) { 0 } else { *rng.pick(&[0u8, 1, 2, 4, 5, 7]) }); // content type
+        b.extend(itf8(if rng.chance(1, 12) { 3 } else { 0 })); // content id
+        let csize = data.len() as i64 + if rng.chance(1, 10) { *rng.pick(&[-2i64, -1, 1, 3]) } else { 0 };
+        let usize_ = data.len() as i64 + if rng.chance(1, 10) { *rng.pick(&[-2i64, -1, 1, 3, 1000]) } else { 0 };
+        b.extend(itf8(csize.max(0) as i32));
+        b.extend(itf8(usize_.max(0) as i32));
+        b.extend(data);
+        let c = crc32(&b);
+        b.extend((if rng.chance(1, 12) { c ^ 1 } else { c }).to_le_bytes());
+        b
+    };
+    let mut body = block(rng, &data, true);
+    let first_len = body.len();
+    let mut n_blocks = 1i32;
+    if rng.chance(1, 4) {
+        // a second block (htslib writes an empty padding block here)
+        let pad = vec![0u8; rng.below(12) as usize];
+        body.extend(block(rng, &pad, false));
+        n_blocks = 2;
+    }
+    if rng.chance(1, 6) {
+        body.extend(std::iter::repeat(0u8).take(rng.range(1, 16) as usize)); // padding after the blocks
+    }
+    if rng.chance(1, 12) {
+        n_blocks = *rng.pick(&[0i32, 2, 3]);
+    }
+    let mut len = body.len() as i64;
+    if rng.chance(1, 8) {
+        len = match rng.below(5) {
+            0 => 0,
+            1 => first_len as i64 - 1,
+            2 => len + 3,
+            3 => first_len as i64,
+            _ => len - 1,
+        }
+        .max(0);
+    }
+    // the container header
+    let mut ch = (len as i32).to_le_bytes().to_vec();
+    ch.extend(itf8(if rng.chance(1, 12) { *rng.pick(&[-1i32, -2, 5]) } else { 0 })); // reference sequence id
+    ch.extend(itf8(if rng.chance(1, 16) { 7 } else { 0 })); // start
+    ch.extend(itf8(if rng.chance(1, 16) { 7 } else { 0 })); // span
+    ch.extend(itf8(if rng.chance(1, 16) { 2 } else { 0 })); // record count
+    ch.push(0); // record counter (ltf8)
+    ch.push(if rng.chance(1, 16) { 9 } else { 0 }); // base count (ltf8)
+    ch.extend(itf8(n_blocks));
+    match rng.below(10) {
+        0 => ch.extend(itf8(0)),
+        1 => {
+            ch.extend(itf8(2));
+            ch.extend(itf8(0));
+            ch.extend(itf8(first_len as i32));
+        }
+        2 => {
+            ch.extend(itf8(1));
+            ch.extend(itf8(5));
+        }
+        _ => {
+            ch.extend(itf8(1));
+            ch.extend(itf8(0));
+        }
+    }
+    let c = crc32(&ch);
+    ch.extend((if rng.chance(1, 12) { c ^ 0x100 } else { c }).to_le_bytes());
+    // the file definition
+    let mut f = Vec::new();
+    f.extend(match rng.below(30) {
+        0 => *b"CRAN",
+        1 => *b"BAM\x01",
+        _ => *b"CRAM",
+    });
+    f.extend(match rng.below(16) {
+        0 => [2u8, 1],
+        1 => [3, 1],
+        2 => [4, 0],
+        3 => [3, 9],
+        _ => [3, 0],
+    });
+    let mut id = [0u8; 20];
+    for x in id.iter_mut().take(rng.below(21) as usize) {
+        *x = rng.below(256) as u8;
+    }
+    f.extend(id);
+    f.extend(ch);
+    f.extend(body);
+    match rng.below(4) {
+        0 => {}
+        1 => f.extend(CRAM_EOF),
+        _ => match cram_after_header_container(&real) {
+            Some(at) => f.extend(&real[at..]),
+            None => f.extend(CRAM_EOF),
+        },
+    }
+    if rng.chance(1, 10) {
+        let n = rng.below(f.len() as u64 + 1) as usize;
+        f.truncate(n);
+    }
+    w.push("rd", vec!["cram".to_string(), hex(&f), rng.below(6).to_string(), rng.next().to_string(), rng.range(1, 8).to_string()]);
+}
+
 pub fn generate(rng: &mut Rng, tier: &str, w: &mut CaseWriter) {
     let n = if tier == "thorough" { 3000 } else { 200 };
     for _ in 0..n {
@@ -362,6 +668,14 @@ pub fn generate(rng: &mut Rng, tier: &str, w: &mut CaseWriter) {
     let n = if tier == "thorough" { 3000 } else { 240 };
     for _ in 0..n {
         gen_hostile_bam_header(rng, w);
+    }
+    let n = if tier == "thorough" { 3000 } else { 240 };
+    for _ in 0..n {
+        gen_hostile_bcf_header(rng, w);
+    }
+    let n = if tier == "thorough" { 1500 } else { 160 };
+    for _ in 0..n {
+        gen_hostile_cram_header(rng, w);
     }
 }
 
